@@ -458,7 +458,14 @@ class SkipgramVectorizer(BaseEstimator, TransformerMixin):
             tuple(*self.kernel_args.values()),
         )
 
-        base_matrix = scipy.sparse.coo_matrix((data, (row, col)))
+        # Give the matrix its fitted shape: one row per input sequence and the column
+        # space seen at fit time (skip-grams outside of it are not kept columns anyway)
+        n_columns = self._column_is_kept.shape[0]
+        in_range = col < n_columns
+        base_matrix = scipy.sparse.coo_matrix(
+            (data[in_range], (row[in_range], col[in_range])),
+            shape=(len(token_sequences), n_columns),
+        )
         result = base_matrix.tocsc()[:, self._column_is_kept].tocsr()
 
         return result
